@@ -382,6 +382,9 @@ func runC20(c *core.Ctx) {
 			continue
 		}
 		var eff, tcall *core.Site
+		// the tally and its effect may have been moved together into a helper of the caller
+		tname := t.name
+		caller = groupFnWith(c, caller, func(s *core.Site) bool { return s.Callee == tname })
 		for _, s := range core.Sites(caller) {
 			if s.Callee == t.name {
 				tcall = s
